@@ -752,6 +752,28 @@ theorem flood_punishment_ignores (ig : IgnoreDb) (bm h : Str) (t now' : Int)
   right
   omega
 
+/-! ## channel-operator commands act on the channel the caller was checked for -/
+
+/-- `Channel.capability add / remove`: the capability argument `c` is stored as
+`makeChannelCapability(channel, c)` with the channel the `op` converter checked.  Whatever `c` is —
+also a string that itself looks like a channel capability such as `#b,op` — the stored capability
+belongs to THAT channel (`fromChannelCapability` gives back `(channel, c)`), never to the channel
+named inside the argument: an #a op cannot hand out #b capabilities. -/
+theorem chancap_argument_scoped (channel c stored : Str)
+    (h : makeChannelCapability channel c = .ok stored) :
+    chanSplit stored = some (channel, c) := by
+  unfold makeChannelCapability at h
+  by_cases hc : isCapability c = true
+  · by_cases hch : isChannel channel = true
+    · simp only [hc, hch, Bool.not_true, Bool.false_eq_true, if_false, Except.ok.injEq] at h
+      rw [← h]
+      exact chanSplit_chan hch hc
+    · simp [hc, hch] at h
+  · simp [hc] at h
+
+example : makeChannelCapability ['#', 'a'] ['#', 'b', ',', 'o', 'p'] = .ok ['#', 'a', ',', '#', 'b', ',', 'o', 'p'] := by decide
+example : chanSplit ['#', 'a', ',', '#', 'b', ',', 'o', 'p'] = some (['#', 'a'], ['#', 'b', ',', 'o', 'p']) := by decide
+
 /-! ## configuration writes -/
 
 /-- **config_write_guard**: `group.set(value)` is reached only for a name that is not read-only and
@@ -988,7 +1010,7 @@ theorem callgraph_ok :
 
 /-- the shape of the gate code the model mirrors (each fact is a syntactic check of the current
 source by the extractor) -/
-theorem gate_shape_ok : Gen.gateShape.all (fun s => s.2) = true ∧ Gen.gateShape.length = 20 := by
+theorem gate_shape_ok : Gen.gateShape.all (fun s => s.2) = true ∧ Gen.gateShape.length = 21 := by
   decide
 
 /-- a refusal is a `raise`: no call site of `errorNoCapability` passes `Raise=False` (the default is
